@@ -41,17 +41,28 @@ theorem postVia_out {cfg : Cfg} {p : PreVia} {h4 : HMap} {hop : Hop} {out : OutM
   unfold postVia at h
   simp only at h
   split at h
-  · cases h; exact ⟨_, _, rfl⟩
-  · split at h
-    · cases h; exact ⟨_, _, rfl⟩
-    · cases h; exact ⟨_, _, rfl⟩
+  all_goals first
+    | (cases h; exact ⟨_, _, rfl⟩)
+    | (split at h
+       · cases h; exact ⟨_, _, rfl⟩
+       · cases h; exact ⟨_, _, rfl⟩)
+    | cases h
 
-theorem postVia_forwarded (cfg : Cfg) (p : PreVia) (h4 : HMap) : isForwarded (postVia cfg p h4) = true := by
+/-- the Via modifier let the request pass: it is forwarded, unless the proxy function failed -/
+theorem postVia_forwarded (cfg : Cfg) (p : PreVia) (h4 : HMap) (hup : cfg.upstream ≠ .failed) :
+    isForwarded (postVia cfg p h4) = true := by
   unfold postVia
   simp only
   split
-  · rfl
-  · split <;> rfl
+  all_goals first
+    | rfl
+    | (split <;> rfl)
+    | (rename_i hu; exact absurd hu hup)
+
+theorem postVia_failed (cfg : Cfg) (p : PreVia) (h4 : HMap) (hup : cfg.upstream = .failed) :
+    postVia cfg p h4 = .routeError := by
+  unfold postVia
+  simp only [hup]
 
 /-- the three ways `processRequest` can end, seen from the Via modifier -/
 theorem processRequest_cases (cfg : Cfg) (ctx : Ctx) (r : Request) :
@@ -72,8 +83,8 @@ theorem processRequest_cases (cfg : Cfg) (ctx : Ctx) (r : Request) :
 theorem forwarded_out {cfg : Cfg} {ctx : Ctx} {r : Request} {hop : Hop} {out : OutMsg}
     (h : processRequest cfg ctx r = .forwarded hop out) (hr : rulesAvoidVia cfg.rules = true) :
     ∃ p, preVia cfg ctx r = .ok p ∧
-      outVia out = [newVia cfg.tag p.g.minor (goGet p.h3 viaName)] ∧
-      ¬ (goGet p.h3 viaName ≠ [] ∧ isInfix cfg.tag (goGet p.h3 viaName) = true) ∧
+      outVia out = [newVia cfg.tag p.g.minor (viaChainOf p.h3)] ∧
+      ¬ (viaChainOf p.h3 ≠ [] ∧ isInfix cfg.tag (viaChainOf p.h3) = true) ∧
       ∃ hop' auth' g', out = writeRequest hop' auth' g' := by
   rcases processRequest_cases cfg ctx r with ⟨o, hp, ho⟩ | ⟨p, hp, hs, ho⟩ | ⟨p, h4, hp, hs, ho⟩
   · rw [h] at ho
@@ -94,15 +105,15 @@ theorem forwarded_out {cfg : Cfg} {ctx : Ctx} {r : Request} {hop : Hop} {out : O
     show hget (finalHeader cfg p.upType h4) viaName = _
     unfold hget
     rw [hgf, h4eq]
-    have := get_goSet_self p.h3 viaName (newVia cfg.tag p.g.minor (goGet p.h3 viaName))
+    have := get_goSet_self p.h3 viaName (newVia cfg.tag p.g.minor (viaChainOf p.h3))
     rw [viaName_canon] at this
     rw [this]
     rfl
 
 /-- a request whose Via value (as the modifier sees it) contains the tag is never forwarded -/
 theorem tagged_not_forwarded {cfg : Cfg} {ctx : Ctx} {r : Request}
-    (hn : viaNominated r.fields = false) (hne : firstVia r.fields ≠ [])
-    (hi : isInfix cfg.tag (firstVia r.fields) = true) :
+    (hn : viaNominated r.fields = false) (hne : viaChain (viaLines r.fields) ≠ [])
+    (hi : isInfix cfg.tag (viaChain (viaLines r.fields)) = true) :
     isForwarded (processRequest cfg ctx r) = false ∧
       (reachesVia cfg ctx r = true → processRequest cfg ctx r = .refused 400 .loop) := by
   rcases processRequest_cases cfg ctx r with ⟨o, hp, ho⟩ | ⟨p, hp, hs, ho⟩ | ⟨p, h4, hp, hs, ho⟩
@@ -117,12 +128,14 @@ theorem tagged_not_forwarded {cfg : Cfg} {ctx : Ctx} {r : Request}
     rw [hget] at this
     exact absurd ⟨hne, hi⟩ this
 
-/-- a request whose Via value does not contain the tag passes the modifier -/
-theorem untagged_forwarded {cfg : Cfg} {ctx : Ctx} {r : Request}
+/-- a request whose Via value does not contain the tag passes the modifier: it is forwarded, or —
+    when the proxy function itself failed — answered with the route error -/
+theorem untagged_passes {cfg : Cfg} {ctx : Ctx} {r : Request}
     (hn : viaNominated r.fields = false)
-    (hi : firstVia r.fields ≠ [] → isInfix cfg.tag (firstVia r.fields) = false)
+    (hi : viaChain (viaLines r.fields) ≠ [] → isInfix cfg.tag (viaChain (viaLines r.fields)) = false)
     (hreach : reachesVia cfg ctx r = true) :
-    isForwarded (processRequest cfg ctx r) = true := by
+    (cfg.upstream ≠ .failed ∧ isForwarded (processRequest cfg ctx r) = true) ∨
+      (cfg.upstream = .failed ∧ processRequest cfg ctx r = .routeError) := by
   rcases processRequest_cases cfg ctx r with ⟨o, hp, ho⟩ | ⟨p, hp, hs, ho⟩ | ⟨p, h4, hp, hs, ho⟩
   · unfold reachesVia at hreach
     rw [hp] at hreach
@@ -132,7 +145,18 @@ theorem untagged_forwarded {cfg : Cfg} {ctx : Ctx} {r : Request}
     rw [hget] at this
     rw [hi this.1] at this
     exact absurd this.2 (by simp)
-  · rw [ho]; exact postVia_forwarded cfg p h4
+  · by_cases hup : cfg.upstream = .failed
+    · exact Or.inr ⟨hup, by rw [ho]; exact postVia_failed cfg p h4 hup⟩
+    · exact Or.inl ⟨hup, by rw [ho]; exact postVia_forwarded cfg p h4 hup⟩
+
+theorem untagged_forwarded {cfg : Cfg} {ctx : Ctx} {r : Request}
+    (hn : viaNominated r.fields = false)
+    (hi : viaChain (viaLines r.fields) ≠ [] → isInfix cfg.tag (viaChain (viaLines r.fields)) = false)
+    (hreach : reachesVia cfg ctx r = true) (hup : cfg.upstream ≠ .failed) :
+    isForwarded (processRequest cfg ctx r) = true := by
+  rcases untagged_passes hn hi hreach with ⟨_, h⟩ | ⟨hf, _⟩
+  · exact h
+  · exact absurd hf hup
 
 /-! ## §11 composing instances -/
 
@@ -220,10 +244,11 @@ theorem writeRequest_names_lower (hop : Hop) (auth : Option Bytes) (g : GoReq) :
     · exact absurd he' (by simp)
   · apply own
     split at he'
-    · split at he'
-      · simp only [List.mem_singleton] at he'; subst he'; simp [ownOutNames]
-      · exact absurd he' (by simp)
-    · exact absurd he' (by simp)
+    all_goals first
+      | (split at he'
+         · simp only [List.mem_singleton] at he'; subst he'; simp [ownOutNames]
+         · exact absurd he' (by simp))
+      | exact absurd he' (by simp)
 
 /-- field lines of a message: one line per value -/
 def flatten (fs : List (Bytes × List Bytes)) : List (Bytes × Bytes) :=
